@@ -15,8 +15,8 @@ pub fn def() -> PropDef {
     panic_policy: PanicPolicy::Violation,
     rule: "random SourceMap values whose strings mix ASCII, quotes, backslashes, C0 controls, DEL, U+2028/2029, 2-4 byte characters and astral characters; optional file / sourceRoot / debugId present or absent; sourcesContent absent, all empty, or partly empty; plus hand-spelled documents (via an independent serialiser) with null entries, missing arrays, shuffled keys, \\u escapes and surrogate pairs; to_json / to_writer output is parsed by serde_json (independent of simd-json) and by from_json / from_slice / from_reader; non-trivial = the value has a string needing an escape or a multi-byte character and >= 1 optional field present; distinct = case fingerprint",
     cases: |t| match t {
-      Tier::Quick => 40_000,
-      Tier::Thorough => 1_000_000,
+      Tier::Quick => 150_000,
+      Tier::Thorough => 2_000_000,
     },
   }
 }
